@@ -323,4 +323,69 @@ theorem loopR_clock_le' (acts : Entry → Body) (B : Rat)
               exact hnn
       · simp only [loopR, hq, ht, if_false]; exact advance_le_of_le s T B hs hT
 
+/-! ### Raising at once with clock-reading callbacks (`loopXC`, round 6) -/
+
+theorem loopXC_entry_only' (kids : Entry → List (Rat × Nat)) (raises : Entry → Bool) (T : Rat)
+    (fuel : Nat) (s : Sys) : loopXC (fun _ => kids) raises T fuel s = loopX kids raises T fuel s := by
+  induction fuel generalizing s with
+  | zero => simp [loopXC, loopX]
+  | succ fuel ih =>
+    match hq : s.queue with
+    | [] => simp only [loopXC, loopX, hq]
+    | e :: rest =>
+      by_cases ht : e.time < T
+      · simp only [loopXC, loopX, hq, ht, if_true, ih]
+      · simp only [loopXC, loopX, hq, ht, if_false]
+
+theorem loopXC_raisedAt_raises (kidsC : Rat → Entry → List (Rat × Nat)) (raises : Entry → Bool) (T : Rat)
+    (fuel : Nat) (s : Sys) (e : Entry) (h : (loopXC kidsC raises T fuel s).raisedAt = some e) :
+    raises e = true := by
+  induction fuel generalizing s with
+  | zero => simp [loopXC] at h
+  | succ fuel ih =>
+    match hq : s.queue with
+    | [] => simp [loopXC, hq] at h
+    | x :: rest =>
+      by_cases ht : x.time < T
+      · by_cases hr : raises x = true
+        · simp only [loopXC, hq, ht, if_true, hr] at h
+          cases h; exact hr
+        · simp only [loopXC, hq, ht, if_true, hr, Bool.false_eq_true, if_false] at h
+          exact ih _ h
+      · simp [loopXC, hq, ht] at h
+
+theorem loopXC_raise_eq_loopC' (kidsC : Rat → Entry → List (Rat × Nat)) (raises : Entry → Bool) (T : Rat)
+    (fuel : Nat) (s : Sys) (e : Entry) (h : (loopXC kidsC raises T fuel s).raisedAt = some e) :
+    (loopXC kidsC raises T fuel s).run =
+      loopC (kidsExceptC kidsC e) T (fired (loopXC kidsC raises T fuel s).run.trace).length s := by
+  have hre := loopXC_raisedAt_raises kidsC raises T fuel s e h
+  induction fuel generalizing s with
+  | zero => simp [loopXC] at h
+  | succ fuel ih =>
+    match hq : s.queue with
+    | [] => simp [loopXC, hq] at h
+    | x :: rest =>
+      by_cases ht : x.time < T
+      · by_cases hr : raises x = true
+        · simp only [loopXC, hq, ht, if_true, hr] at h ⊢
+          cases h
+          have hl : (fired ((advance { s with queue := rest } (e.time - s.t)).2 ++
+              [Event.fire e (advance { s with queue := rest } (e.time - s.t)).1.t])).length = 1 := by
+            rw [fired_append, fired_advance]; simp [fired]
+          rw [hl]
+          simp [loopC, hq, ht, kidsExceptC, addAll]
+        · have hx : x ≠ e := by rintro rfl; exact hr hre
+          simp only [loopXC, hq, ht, if_true, hr, Bool.false_eq_true, if_false] at h ⊢
+          have := ih _ h
+          have hl : (fired ((advance { s with queue := rest } (x.time - s.t)).2 ++
+              Event.fire x (advance { s with queue := rest } (x.time - s.t)).1.t ::
+                (loopXC kidsC raises T fuel (addAll (advance { s with queue := rest } (x.time - s.t)).1 (kidsC (advance { s with queue := rest } (x.time - s.t)).1.t x))).run.trace)).length =
+              (fired (loopXC kidsC raises T fuel (addAll (advance { s with queue := rest } (x.time - s.t)).1 (kidsC (advance { s with queue := rest } (x.time - s.t)).1.t x))).run.trace).length + 1 := by
+            rw [fired_append, fired_advance]; simp [fired]
+          rw [hl]
+          have hk : ∀ clk, kidsExceptC kidsC e clk x = kidsC clk x := by intro clk; simp [kidsExceptC, hx]
+          simp only [loopC, hq, ht, if_true, hk]
+          rw [← this]
+      · simp [loopXC, hq, ht] at h
+
 end HcipyVerif.Scheduler
